@@ -275,6 +275,12 @@ fn state3(c: &mut Ctx, q: &RcParams3, rc: &Point3, rc_d: &Point3, x: &Vector6<f6
     c.le(turn(rot.r.x, x[3]).max(turn(rot.r.y, x[4])).max(turn(rot.r.z, x[5])), TOL_RT, &w("rotations().r holds the current Euler angles (modulo a full turn)"), inp);
     c.le(err_m3(&qmat(&rot.q), &rxyz(x[3], x[4], x[5])), TOL_RT, &w("rotations().q is Rx Ry Rz of the current Euler angles"), inp);
     c.le(err_m3(&qmat(&rot.q), &qmat(&q.transform().rotation)), TOL_RT, &w("rotations().q is the rotation of transform"), inp);
+    // wave 5: the derivative matrices are derived fields as well (what they must be is the business of the Euler-matrix
+    // clauses; here: they belong to the CURRENT angles, not to those of an earlier set())
+    let fresh = RotationMatrices::from_euler(x[3], x[4], x[5]);
+    let e = err_m3(&rot.d.x, &fresh.d.x).max(err_m3(&rot.d.y, &fresh.d.y)).max(err_m3(&rot.d.z, &fresh.d.z))
+        .max(err_m3(&rot.rd.x, &fresh.rd.x)).max(err_m3(&rot.rd.y, &fresh.rd.y)).max(err_m3(&rot.rd.z, &fresh.rd.z));
+    c.le(e, 1e-12, &w("rotations().d and rd are the derivative matrices of the current Euler angles"), inp);
 }
 
 fn run3(c: &mut Ctx) {
@@ -345,8 +351,12 @@ fn run3(c: &mut Ctx) {
 }
 
 fn euler_matrices(c: &mut Ctx) {
-    let g = [-2.5, -FRAC_PI_2, -0.4, 0.0, 0.3, FRAC_PI_2, 3.0];
-    for a in g { for b in g { for gm in g {
+    euler_grid(c, &[-2.5, -FRAC_PI_2, -0.4, 0.0, 0.3, FRAC_PI_2, 3.0]);
+    // wave 5: beyond a full / half turn, at +-pi, and 1e-8 from the identity
+    euler_grid(c, &[-7.0, -PI, -1e-8, 1e-8, 4.0, PI]);
+}
+fn euler_grid(c: &mut Ctx, g: &[f64]) {
+    for &a in g { for &b in g { for &gm in g {
         c.r.case();
         let inp = || format!("from_euler({:e}, {:e}, {:e})", a, b, gm);
         let m = RotationMatrices::from_euler(a, b, gm);
@@ -496,7 +506,7 @@ fn handler(c: &mut Ctx) {
 
 pub fn run() -> Option<Report> {
     let mut c = Ctx {
-        r: Report::new("2D: 23 angles (0, +-1e-9 .. +-175 deg, +-(pi-1e-9), +-pi) x 4 translations x 4 rotation centres (<= 1e3); 3D: 6 rolls x 27 pitches (exactly / within 1e-9, 1e-8, 1e-6, 1e-4, 1e-3 of +-pi/2 on both sides, beyond 90 deg) x 5 yaws (at / near +-pi) in both composition orders x 3 translations x 3 centres (<= 1e3); set() sequences of 6 vectors; Jacobians: 5 starting transforms (up to 1e3 away) x 3 centres x 2 states x 3 test points x planes / lines / point pairs in general position, every parameter index, 4th-order central differences with step 1e-4, tolerance 1e-6 relative; Euler matrices on a 7^3 grid; parameter clauses within 1e-9"),
+        r: Report::new("2D: 23 angles (0, +-1e-9 .. +-175 deg, +-(pi-1e-9), +-pi) x 4 translations x 4 rotation centres (<= 1e3); 3D: 6 rolls x 27 pitches (exactly / within 1e-9, 1e-8, 1e-6, 1e-4, 1e-3 of +-pi/2 on both sides, beyond 90 deg) x 5 yaws (at / near +-pi) in both composition orders x 3 translations x 3 centres (<= 1e3); set() sequences of 6 vectors; Jacobians: 5 starting transforms (up to 1e3 away) x 3 centres x 2 states x 3 test points x planes / lines / point pairs in general position, every parameter index, 4th-order central differences with step 1e-4, tolerance 1e-6 relative; Euler matrices on a 7^3 grid; parameter clauses within 1e-9; wave 5: every parameter changed alone (by 0.25, -1e-3, 1e-8) and the same set() repeated from 5 states x 3 centres in 2D and 3D at an absolute 1e-9, near-identity initial isometries (1e-8) with centres 1e3 away, starting translations 1e-12 .. 1e8, Jacobians with lever arms 1e3 / 1e-3 / 0 after sequences of set() and at near-identity poses, Euler matrices on {-7, -pi, +-1e-8, 4, pi}^3, copy_jacobian (3D) into pre-filled dynamic and fixed matrices, ParamHandler with 1 / 2 / 5 bodies under repeated, partial, 1e-8 and reverting set_param"),
         m: Meter::new(),
     };
     run2(&mut c);
@@ -505,6 +515,343 @@ pub fn run() -> Option<Report> {
     euler_matrices(&mut c);
     jacobians3(&mut c);
     handler(&mut c);
+    wave5(&mut c);
     c.m.dump();
     Some(c.r)
+}
+
+// ------------------------------------------------------------------------------------------------ wave 5
+// Parameter-space audit (notes/w5_audit_C08.md).
+// * SEQUENCES: every parameter index changed ALONE (by 0.25, by -1e-3 and by 1e-8), the same vector set again (a no-op
+//   update), from three states each in 2D and 3D; every derived field is compared at an ABSOLUTE 1e-9 (the relative
+//   tolerance of the clauses above would hide an effect of 1e-8 at a configuration of size 1e3).
+// * MAGNITUDES: near-identity initial isometries (1e-8 rad, 1e-8 translation) with a rotation centre 1e3 away (long lever
+//   arm), at the same absolute tolerance; starting translations of 1e6 .. 1e8; translations of 1e-9.
+// * JACOBIANS: lever arms of 1e3, 1e-3 and exactly zero (test point at the current rotation centre), poses reached by a
+//   sequence of set() calls and near-identity poses.
+// * copy_jacobian (3D; the 2D one is private to geom2::align2 and reachable only through points_to_curve, see C07):
+//   the six entries land in parameter order in the given row, every other entry of the matrix is untouched.
+// * ParamHandler with 1, 2 and 5 bodies, repeated / partial / reverting set_param, set_jacobian into a pre-filled matrix.
+fn wave5(c: &mut Ctx) {
+    w5_translations(c);
+    w5_seq2(c);
+    w5_seq3(c);
+    w5_jac2(c);
+    w5_jac3(c);
+    w5_copy(c);
+    w5_handler(c);
+}
+
+fn w5_translations(c: &mut Ctx) {
+    let d = PI / 180.0;
+    for (tx, ty, tz) in [(1.0e8, -1.0e6, 3.0e7), (1.0e-9, -1.0e-12, 0.0), (-1.0e6, 1.0e-9, 1.0e3)] {
+        for a in [0.0, 1e-8, -0.3, 100.0 * d, -175.0 * d, PI] {
+            c.r.case();
+            let t = iso2(tx, ty, a);
+            let inp = || format!("t = translation ({:e}, {:e}) after rotation by {:e} rad", tx, ty, a);
+            let x = param_from_iso2(&t);
+            c.le(err_iso2(&iso2_from_param(&x), &t, 0.0), TOL_RT, "2D: iso2_from_param(param_from_iso2(t)) == t", inp);
+            c.le((x.x - tx).abs().max((x.y - ty).abs()), 0.0, "2D: param_from_iso2 returns the translation in slots 0, 1", inp);
+            for rc in [Point2::new(1.5, -2.25), Point2::new(-1000.0, 1000.0)] {
+                let inp = || format!("initial = translation ({:e}, {:e}) after rotation by {:e} rad, rc = ({}, {})", tx, ty, a, rc.x, rc.y);
+                let q = RcParams2::from_initial(&t, &rc);
+                let scale = size2(&t, &rc);
+                c.le(err_iso2(q.transform(), &t, scale), TOL_RT, "2D: RcParams2::from_initial(initial, rc).transform() == initial", inp);
+                let x0 = *q.x();
+                state2(c, &q, &rc, &x0, scale, "RcParams2 as constructed", &inp);
+            }
+        }
+        for (ro, pi, ya) in [(0.0, 0.0, 0.0), (0.4, 0.7, -0.9), (-2.0, -1.2, 2.5), (1e-8, -2e-8, 3e-8)] {
+            c.r.case();
+            let rot = quat_xyz(ro, pi, ya);
+            let t = Iso3::from_parts(Translation3::new(tx, ty, tz), rot);
+            let inp = || format!("t = translation ({:e}, {:e}, {:e}) after Rx*Ry*Rz of ({:e}, {:e}, {:e})", tx, ty, tz, ro, pi, ya);
+            let x = param_from_iso3(&t);
+            c.le(err_iso3(&iso3_from_param(&x), &t, 0.0), TOL_RT, "3D (general pose): iso3_from_param(param_from_iso3(t)) == t", inp);
+            c.le((x[0] - tx).abs().max((x[1] - ty).abs()).max((x[2] - tz).abs()), 0.0, "3D: param_from_iso3 returns the translation in slots 0, 1, 2", inp);
+            for rc in [Point3::new(1.5, -2.25, 4.0), Point3::new(-1000.0, 1000.0, 500.0)] {
+                let inp = || format!("initial = translation ({:e}, {:e}, {:e}) after Rx*Ry*Rz of ({:e}, {:e}, {:e}), rc = ({}, {}, {})", tx, ty, tz, ro, pi, ya, rc.x, rc.y, rc.z);
+                let q = RcParams3::from_initial(&t, &rc);
+                let scale = t.translation.vector.amax().max(rc.coords.amax());
+                c.le(err_iso3(q.transform(), &t, scale), TOL_RT, "3D (general pose): RcParams3::from_initial(initial, rc).transform() == initial", inp);
+                let x0 = *q.x();
+                state3(c, &q, &rc, &(t * rc), &x0, scale, "RcParams3 as constructed", &inp);
+            }
+        }
+    }
+}
+
+fn w5_seq2(c: &mut Ctx) {
+    let inits = [iso2(3.0, -2.0, 0.4), iso2(1000.0, -750.0, -2.9), iso2(0.0, 0.0, 0.0), iso2(1e-8, -1e-8, 1e-8), iso2(0.0, 0.0, -1e-8)];
+    let rcs = [Point2::new(1.5, -2.25), Point2::new(-1000.0, 1000.0), Point2::new(0.0, 0.0)];
+    for t in inits.iter() { for rc in rcs.iter() {
+        c.r.case();
+        let inp0 = || format!("initial = ({:e}, {:e}, {:e} rad), rc = ({}, {})", t.translation.vector.x, t.translation.vector.y, t.rotation.angle(), rc.x, rc.y);
+        let mut q = RcParams2::from_initial(t, rc);
+        // absolute tolerance: scale 0
+        c.le(err_iso2(q.transform(), t, 0.0), TOL_RT, "2D: RcParams2::from_initial(initial, rc).transform() == initial (absolute 1e-9)", inp0);
+        let mut x = *q.x();
+        state2(c, &q, rc, &x, 0.0, "RcParams2 as constructed (absolute 1e-9)", &inp0);
+        for delta in [0.25, 1e-8, -1e-3] { for k in 0..3 {
+            let before = *q.transform();
+            x[k] += delta;
+            q.set(&x);
+            let inp = || format!("{} | parameter {} alone changed by {:e}: x = ({:e}, {:e}, {:e})", inp0(), k, delta, x.x, x.y, x.z);
+            state2(c, &q, rc, &x, 0.0, "RcParams2 after a single-parameter set() (absolute 1e-9)", &inp);
+            // the update must actually arrive: the moved rotation centre / a probe point moves by the expected amount
+            let probe = Point2::new(rc.x + 8.0, rc.y - 6.0);
+            let moved = (q.transform() * probe - before * probe).norm();
+            let want = if k < 2 { delta.abs() } else { 2.0 * 10.0 * (delta.abs() / 2.0).sin() };
+            c.le((moved - want).abs() / delta.abs(), 1e-2, "2D: a single-parameter change moves a probe point 10 from the centre by the expected distance", || format!("{} | moved {:e}, expected {:e}", inp(), moved, want));
+            q.set(&x);
+            state2(c, &q, rc, &x, 0.0, "RcParams2 after the same set() again (absolute 1e-9)", &inp);
+        } }
+    } }
+}
+
+fn w5_seq3(c: &mut Ctx) {
+    let inits = [
+        Iso3::from_parts(Translation3::new(3.0, -2.0, 0.5), quat_xyz(0.4, 0.7, -0.9)),
+        Iso3::from_parts(Translation3::new(1000.0, -750.0, 500.0), quat_xyz(-2.0, -1.2, 2.5)),
+        Iso3::identity(),
+        Iso3::from_parts(Translation3::new(1e-8, 0.0, -1e-8), quat_xyz(1e-8, -2e-8, 3e-8)),
+        Iso3::from_parts(Translation3::new(2.0, 1.0, -4.0), quat_xyz(0.6, FRAC_PI_2, 0.0)),
+    ];
+    let rcs = [Point3::new(1.5, -2.25, 4.0), Point3::new(-1000.0, 1000.0, 500.0), Point3::new(0.0, 0.0, 0.0)];
+    for (ti, t) in inits.iter().enumerate() { for rc in rcs.iter() {
+        c.r.case();
+        let inp0 = || format!("initial #{} (translation ({:e}, {:e}, {:e})), rc = ({}, {}, {})", ti, t.translation.vector.x, t.translation.vector.y, t.translation.vector.z, rc.x, rc.y, rc.z);
+        let mut q = RcParams3::from_initial(t, rc);
+        let rc_d = t * rc;
+        c.le(err_iso3(q.transform(), t, 0.0), TOL_RT, "3D (general pose): RcParams3::from_initial(initial, rc).transform() == initial (absolute 1e-9)", inp0);
+        let mut x = *q.x();
+        state3(c, &q, rc, &rc_d, &x, 0.0, "RcParams3 as constructed (absolute 1e-9)", &inp0);
+        for delta in [0.25, 1e-8, -1e-3] { for k in 0..6 {
+            let before = *q.transform();
+            x[k] += delta;
+            q.set(&x);
+            let inp = || format!("{} | parameter {} alone changed by {:e}: x = {:?}", inp0(), k, delta, x.as_slice());
+            state3(c, &q, rc, &rc_d, &x, 0.0, "RcParams3 after a single-parameter set() (absolute 1e-9)", &inp);
+            if k < 3 {
+                let probe = Point3::new(rc.x + 8.0, rc.y - 6.0, rc.z + 1.0);
+                let moved = (q.transform() * probe - before * probe).norm();
+                c.le((moved - delta.abs()).abs() / delta.abs(), 1e-2, "3D: a single translation parameter change moves every point by that amount", || format!("{} | moved {:e}", inp(), moved));
+            } else {
+                // a rotation parameter alone: the centre stays, some probe point 10 away moves
+                let stay = (q.transform() * rc - before * rc).norm();
+                c.le(stay, 1e-9, "3D: a rotation parameter change leaves the moved rotation centre in place", || format!("{} | centre moved {:e}", inp(), stay));
+                let mut far: f64 = 0.0;
+                for pr in [Vector3::new(10.0, 0.0, 0.0), Vector3::new(0.0, 10.0, 0.0), Vector3::new(0.0, 0.0, 10.0)] { far = far.max((q.transform() * (rc + pr) - before * (rc + pr)).norm()); }
+                c.r.check(far >= 5.0 * delta.abs() && far <= 20.1 * delta.abs().min(1.0), "3D: a rotation parameter change turns the points around the centre by that angle", || format!("{} | largest motion of three probe points 10 from the centre {:e}", inp(), far));
+            }
+            q.set(&x);
+            state3(c, &q, rc, &rc_d, &x, 0.0, "RcParams3 after the same set() again (absolute 1e-9)", &inp);
+        } }
+    } }
+}
+
+fn w5_jac2(c: &mut Ctx) {
+    let inits = [iso2(0.0, 0.0, 0.0), iso2(1000.0, -750.0, 2.9), iso2(1e-8, -1e-8, 1e-8)];
+    let rcs = [Point2::new(0.0, 0.0), Point2::new(-600.0, 750.0)];
+    let offs = [Vector2::new(600.0, -800.0), Vector2::new(0.0, 0.0), Vector2::new(1e-3, -2e-3)];
+    let nangs = [0.9, -1.7, PI];
+    let dists = [0.75, -1.5];
+    for t in inits.iter() { for rc in rcs.iter() { for moved in [false, true] {
+        let mut q = RcParams2::from_initial(t, rc);
+        if moved {
+            for dx in [na::Vector3::new(0.5, -0.25, 0.3), na::Vector3::new(0.0, 0.0, -1.0), na::Vector3::new(-20.0, 0.0, 0.0)] { let x = q.x() + dx; q.set(&x); }
+        }
+        let x0 = *q.x();
+        let crc = *q.current_rc();
+        for o in offs.iter() { for na_ in nangs { for dd in dists {
+            c.r.case();
+            let p = crc + o;
+            let n = Vector2::new(na_.cos(), na_.sin());
+            let sp = SurfacePoint2::new_normalize(p - n * dd + Vector2::new(-n.y, n.x) * 1.25, n);
+            let inp = || format!("initial = ({:e}, {:e}, {:e} rad), rc = ({}, {}), after three set() calls: {}, p = current_rc + ({:e}, {:e}), line normal angle {}, signed distance {}",
+                t.translation.vector.x, t.translation.vector.y, t.rotation.angle(), rc.x, rc.y, moved, o.x, o.y, na_, dd);
+            let j = match jac2(&p, &sp, &q) { Some(j) => j, None => return };
+            let p0 = q.inverse() * p;
+            for k in 0..3 {
+                let fd = fd4(|h| { let mut q2 = q.clone(); let mut x = x0; x[k] += h; q2.set(&x); sp.scalar_projection(&(q2.transform() * p0)) });
+                c.le((j[k] - fd).abs() / (1.0 + j[k].abs()), TOL_J, "2D: point_surface_jacobian entry == central finite difference of the signed distance w.r.t. that parameter", || format!("{} | parameter {} analytic {:e} fd {:e}", inp(), k, j[k], fd));
+            }
+        } } }
+    } } }
+}
+
+fn w5_jac3(c: &mut Ctx) {
+    let inits = [
+        Iso3::identity(),
+        Iso3::from_parts(Translation3::new(1000.0, -800.0, 600.0), quat_xyz(2.5, -1.0, -2.9)),
+        Iso3::from_parts(Translation3::new(1e-8, 0.0, -1e-8), quat_xyz(1e-8, -2e-8, 3e-8)),
+    ];
+    let rcs = [Point3::new(0.0, 0.0, 0.0), Point3::new(500.0, -600.0, 300.0)];
+    let offs = [Vector3::new(600.0, -800.0, 300.0), Vector3::new(0.0, 0.0, 0.0), Vector3::new(1e-3, 2e-3, -1e-3)];
+    let normals = [Vector3::new(1.0, 1.0, 1.0), Vector3::new(-2.0, 1.0, 0.5)];
+    let dists = [0.75, -1.5];
+    let pp = [Vector3::new(1.0, -2.0, 0.5), Vector3::new(-4.0, 2.0, 1.0)];
+    for (ti, t) in inits.iter().enumerate() { for rc in rcs.iter() { for moved in [false, true] {
+        let mut q = RcParams3::from_initial(t, rc);
+        if moved {
+            for dx in [Vector6::new(0.5, -0.25, 0.125, 0.3, -0.2, 0.1), Vector6::new(0.0, 0.0, 0.0, 0.0, 0.0, -1.0), Vector6::new(-20.0, 0.0, 0.0, 0.0, 0.0, 0.0), Vector6::new(0.0, 0.0, 0.0, 0.0, 0.7, 0.0)] { let x = q.x() + dx; q.set(&x); }
+        }
+        let x0 = *q.x();
+        let crc = *q.current_rc();
+        let at = |k: usize, h: f64| -> Iso3 { let mut q2 = q.clone(); let mut x = x0; x[k] += h; q2.set(&x); *q2.transform() };
+        let tinv = *q.inverse();
+        for o in offs.iter() {
+            let p = crc + o;
+            let p0 = tinv * p;
+            let pose = || format!("initial #{} (translation ({:e}, {:e}, {:e})), rc = ({}, {}, {}), after four set() calls: {}, p = current_rc + ({:e}, {:e}, {:e})",
+                ti, t.translation.vector.x, t.translation.vector.y, t.translation.vector.z, rc.x, rc.y, rc.z, moved, o.x, o.y, o.z);
+            for nv in normals.iter() { for dd in dists {
+                c.r.case();
+                let n = nv.normalize();
+                let tang = n.cross(&Vector3::new(0.1, 0.2, 1.0)).normalize();
+                let inp = || format!("{}, plane normal ({}, {}, {}) normalised, signed distance {}", pose(), nv.x, nv.y, nv.z, dd);
+                let sp = SurfacePoint3::new_normalize(p - n * dd + tang * 1.25, n);
+                let j = point_plane_jacobian(&p, &sp, &q);
+                for k in 0..6 {
+                    let fd = fd4(|h| sp.scalar_projection(&(at(k, h) * p0)).abs());
+                    c.le((j[k] - fd).abs() / (1.0 + j[k].abs()), TOL_J, "3D: point_plane_jacobian entry == central finite difference of |n.(T p - c)| w.r.t. that parameter", || format!("{} | parameter {} analytic {:e} fd {:e}", inp(), k, j[k], fd));
+                }
+                let sf = SurfacePoint3::new_normalize(p - n * dd, n);
+                let jr = point_plane_jacobian_rev(&p, &sf, &q);
+                for k in 0..6 {
+                    let fd = fd4(|h| sf.transformed(&(at(k, h) * tinv)).scalar_projection(&p).abs());
+                    c.le((jr[k] - fd).abs() / (1.0 + jr[k].abs()), TOL_J, "3D: point_plane_jacobian_rev entry == central finite difference of |n'.(p - c')| w.r.t. that parameter of the REFERENCE", || format!("{} | parameter {} analytic {:e} fd {:e}", inp(), k, jr[k], fd));
+                }
+            } }
+            for v in pp.iter() {
+                c.r.case();
+                let cpt = p + v;
+                let inp = || format!("{}, reference point = p + ({}, {}, {})", pose(), v.x, v.y, v.z);
+                let j = point_point_jacobian(&p, &cpt, &q);
+                // with a lever arm of 1e3 a step of 1e-4 rad moves the point by 0.1, not small against the distance of the
+                // pair: the finite difference of the DISTANCE is no longer accurate to 1e-6. d|T p - c|/dx = u . d(T p)/dx
+                // with u the unit vector from the reference to the point; the velocity of the point is smooth
+                let u = (p - cpt).normalize();
+                for k in 0..6 {
+                    let dp = Vector3::new(fd4(|h| (at(k, h) * p0).x), fd4(|h| (at(k, h) * p0).y), fd4(|h| (at(k, h) * p0).z));
+                    let want = u.dot(&dp);
+                    c.le((j[k] - want).abs() / (1.0 + j[k].abs()), TOL_J, "3D: point_point_jacobian entry == u . d(T p)/dx (unit vector from the reference to the point, finite-difference velocity of the point)", || format!("{} | parameter {} analytic {:e} expected {:e}", inp(), k, j[k], want));
+                }
+            }
+        }
+    } } }
+}
+
+fn w5_copy(c: &mut Ctx) {
+    use crate::geom3::align3::jacobian::copy_jacobian;
+    let j = Vector6::new(1.5, -2.0, 3.25, -4.0, 5.5, -6.0);
+    for rows in [1usize, 2, 5] { for row in 0..rows {
+        c.r.case();
+        let fill = |i: usize, k: usize| 100.0 + (i * 6 + k) as f64;
+        let mut m = na::OMatrix::<f64, na::Dyn, na::U6>::from_fn(rows, |i, k| fill(i, k));
+        copy_jacobian(&j, &mut m, row);
+        let mut e: f64 = 0.0;
+        for i in 0..rows { for k in 0..6 { let want = if i == row { j[k] } else { fill(i, k) }; e = e.max((m[(i, k)] - want).abs()); } }
+        c.le(e, 0.0, "3D: copy_jacobian writes the six entries in parameter order into the given row and nothing else", || format!("dynamic {} x 6 matrix, row {}", rows, row));
+    } }
+    for row in 0..4usize {
+        c.r.case();
+        let fill = |i: usize, k: usize| -50.0 - (i * 6 + k) as f64;
+        let mut m = na::SMatrix::<f64, 4, 6>::from_fn(|i, k| fill(i, k));
+        copy_jacobian(&j, &mut m, row);
+        let mut e: f64 = 0.0;
+        for i in 0..4 { for k in 0..6 { let want = if i == row { j[k] } else { fill(i, k) }; e = e.max((m[(i, k)] - want).abs()); } }
+        c.le(e, 0.0, "3D: copy_jacobian writes the six entries in parameter order into the given row and nothing else", || format!("fixed 4 x 6 matrix, row {}", row));
+    }
+}
+
+fn w5_handler(c: &mut Ctx) {
+    let all_means = vec![Point3::new(1.0, 2.0, 3.0), Point3::new(400.0, -500.0, 600.0), Point3::new(7.0, 8.0, 9.0), Point3::new(-1000.0, 0.0, 1000.0), Point3::new(0.0, 0.0, 0.0)];
+    let all_initial = vec![
+        Iso3::from_parts(Translation3::new(1.0, 2.0, 3.0), quat_xyz(0.5, 0.6, 0.7)),
+        Iso3::from_parts(Translation3::new(-40.0, 50.0, 6.0), quat_xyz(-2.8, FRAC_PI_2, 1.0)),
+        Iso3::from_parts(Translation3::new(4.0, 5.0, 6.0), quat_xyz(0.8, -0.9, 3.0)),
+        Iso3::from_parts(Translation3::new(1e-8, 0.0, 0.0), quat_xyz(1e-8, 0.0, -1e-8)),
+        Iso3::from_parts(Translation3::new(1000.0, -1000.0, 0.0), quat_xyz(3.0, 1.0, -3.0)),
+    ];
+    let block = |b: usize, v: usize| -> Vector6<f64> {
+        let f = (b + 1) as f64;
+        if v == 0 { Vector6::new(0.5 * f, -0.25 * f, 0.125, 0.3 * f, -0.2, 0.1 * f) } else { Vector6::new(-20.0, 10.0 * f, 5.0, 3.5, FRAC_PI_2 - 0.3 * f, -4.0) }
+    };
+    for count in [1usize, 2, 5] { for static_i in 0..count { for with_initial in [false, true] {
+        c.r.case();
+        let means: Vec<Point3> = all_means[..count].to_vec();
+        let ident = vec![Iso3::identity(); count];
+        let init: &[Iso3] = if with_initial { &all_initial[..count] } else { &ident[..] };
+        let mut h = ParamHandler::new(static_i, means.clone(), if with_initial { Some(&all_initial[..count]) } else { None });
+        let inp = || format!("ParamHandler::new(static_i = {}, {} rotation centres, initial = {})", static_i, count, if with_initial { "rotated isometries" } else { "None" });
+        let np = (count - 1) * 6;
+        c.r.check(h.params().len() == np, "handler: n - 1 moving bodies have 6 (n - 1) parameters", inp);
+        let x_init = h.params().clone();
+        let oracle = |h: &ParamHandler, x: &DVector<f64>, what: &str, c: &mut Ctx, tag: &str| {
+            c.le((h.params() - x).amax().max(0.0), 0.0, "handler: params() is the vector that was set", || format!("{} | {}", tag, what));
+            for i in 0..count {
+                let scale = 0.0;
+                let rc_d = init[i] * means[i];
+                if i == static_i {
+                    c.le(err_iso3(&h.get_transform(i), &init[i], scale), TOL_RT, "handler: set_param leaves the static body at its initial isometry", || format!("{} | {} | body {}", tag, what, i));
+                } else {
+                    let b = h.p_index(i) * 6;
+                    let xi = Vector6::new(x[b], x[b + 1], x[b + 2], x[b + 3], x[b + 4], x[b + 5]);
+                    let mut e: f64 = 0.0;
+                    for p in probes3() { e = e.max(err_p3(&(h.get_transform(i) * p), &oracle3(&xi, &means[i], &rc_d, &p), scale)); }
+                    c.le(e, TOL_RT, "handler: after set_param body i moves by its own block of six parameters", || format!("{} | {} | body {}", tag, what, i));
+                }
+            }
+            for a in 0..count { for b in 0..count {
+                let rel = h.relative_transform(a, b);
+                let mut e: f64 = 0.0;
+                for p in probes3() { e = e.max(err_p3(&(h.get_transform(b) * (rel * p)), &(h.get_transform(a) * p), 1000.0)); }
+                c.le(e, TOL_RT, "handler: relative_transform(test, ref) == transform(ref)^-1 * transform(test)", || format!("{} | {} | test {} ref {}", tag, what, a, b));
+                if a == b { c.le(err_iso3(&rel, &Iso3::identity(), 1000.0), TOL_RT, "handler: relative_transform(i, i) is the identity", || format!("{} | {} | body {}", tag, what, a)); }
+            } }
+        };
+        let tag = inp();
+        // as constructed
+        let mut k = 0;
+        for i in 0..count {
+            if i != static_i { c.r.check(h.p_index(i) == k, "handler: p_index numbers the moving bodies consecutively", || format!("{} | body {}", tag, i)); k += 1; }
+            c.le(err_iso3(&h.get_transform(i), &init[i], 0.0), TOL_RT, if with_initial { "handler: get_transform(i) after new(.., Some(initial)) is the initial isometry of body i" } else { "handler: get_transform(i) after new(.., None) is the identity" }, || format!("{} | body {}", tag, i));
+        }
+        // sequence: full set, the same again, one block changed, one entry changed by 1e-8, back to the initial parameters
+        let mut x = DVector::<f64>::zeros(np);
+        for b in 0..count - 1 { x.fixed_rows_mut::<6>(b * 6).copy_from(&block(b, 0)); }
+        h.set_param(&x);
+        oracle(&h, &x, "after set_param", c, &tag);
+        h.set_param(&x);
+        oracle(&h, &x, "after the same set_param again", c, &tag);
+        if count > 1 {
+            let b = count - 2;
+            x.fixed_rows_mut::<6>(b * 6).copy_from(&block(b, 1));
+            h.set_param(&x);
+            oracle(&h, &x, "after a set_param that changes the last block only", c, &tag);
+            x[0] += 1e-8;
+            x[np - 1] -= 1e-8;
+            h.set_param(&x);
+            oracle(&h, &x, "after a set_param that changes two entries by 1e-8", c, &tag);
+        }
+        h.set_param(&x_init);
+        oracle(&h, &x_init, "after set_param(the parameters as constructed)", c, &tag);
+        for i in 0..count { c.le(err_iso3(&h.get_transform(i), &init[i], 0.0), TOL_RT, "handler: setting the parameters as constructed restores the initial isometry of every body", || format!("{} | body {}", tag, i)); }
+        // set_jacobian into a pre-filled matrix: only the six columns of that body in that row change
+        let vals = Vector6::new(1.0, 2.0, 3.0, 4.0, 5.0, 6.0);
+        for i in 0..count { for row in [0usize, 2] {
+            if np == 0 && i != static_i { continue; }
+            let fill = |r_: usize, k_: usize| 100.0 + (r_ * 40 + k_) as f64;
+            let mut m = DMatrix::<f64>::from_fn(3, np.max(1), |r_, k_| fill(r_, k_));
+            h.set_jacobian(&mut m, row, i, &vals);
+            let mut e: f64 = 0.0;
+            for r_ in 0..3 { for k_ in 0..np.max(1) {
+                let mine = i != static_i && r_ == row && k_ >= h.p_index(i) * 6 && k_ < h.p_index(i) * 6 + 6;
+                let want = if mine { vals[k_ - h.p_index(i) * 6] } else { fill(r_, k_) };
+                e = e.max((m[(r_, k_)] - want).abs());
+            } }
+            c.le(e, 0.0, "handler: set_jacobian writes the six values into the columns of that body (nothing for the static body)", || format!("{} | body {}, row {} of a pre-filled 3-row matrix", tag, i, row));
+        } }
+    } } }
 }
